@@ -424,4 +424,8 @@ theorem treePush_stk (H : HashFn) {L : List Bytes} {t : Tree} (d : Bytes)
   · simp only [Tree.push, createLeaf, fromLeafIndex, hc, hlt, if_true, Option.map_some, pushWithCallback, hrun]
   · simp [hc]
 
+/-- a toy "hash" (identity on non-empty inputs) that satisfies `H [] = emptySum`; used only by the
+non-vacuity examples and the kernel-evaluated witnesses -/
+def toyHash : HashFn := fun b => if b = [] then emptySum else b
+
 end FuelVerif.BMT
